@@ -63,6 +63,9 @@ class OpCode(Enum):
     VECTOR_CMP_NE = 0x1_1104
     VECTOR_CMP_EQ = 0x1_1105
 
+    VECTOR_LG_OR = 0x1_1300
+    VECTOR_LG_AND = 0x1_1301
+
     # logic
     LG_OR = 0x1_0300
     LG_AND = 0x1_0301
@@ -667,6 +670,9 @@ class BinaryInstruction(Instruction):
                 op.Operation.MUL: OpCode.VECTOR_MUL,
                 op.Operation.SUB: OpCode.VECTOR_SUB,
                 op.Operation.DIV: OpCode.VECTOR_DIV,
+                op.Operation.MOD: OpCode.VECTOR_MOD,
+                op.Operation.LG_AND: OpCode.VECTOR_LG_AND,
+                op.Operation.LG_OR: OpCode.VECTOR_LG_OR,
                 op.Operation.CMP_GT: OpCode.VECTOR_CMP_GT,
                 op.Operation.CMP_GE: OpCode.VECTOR_CMP_GE,
                 op.Operation.CMP_LT: OpCode.VECTOR_CMP_LT,
